@@ -1,6 +1,12 @@
-"""C08 — every range sent to the client is well-formed (DESIGN §4 C08).  PARTIAL.
+"""C08 — every range sent to the client is well-formed (DESIGN §4 C08).  PARTIAL (workspace-level responses; lexer ranges evaluated).
 
-theorems : lean/GoldModel/Props/C08.lean — outline_ranges_ok (for every tree satisfying the
+theorems : lean/GoldModel/Props/C08T5.lean — t5_partial / t5_parse / t5_nonterminal / t5_outline: for EVERY token list as the lexer
+           produces them (start <= end, `.` non-empty, starts in order, ends in order except string literals / comments) the tree parse_gold builds passes the range
+           checker (every node start <= end, every declaration contains its selection range), mentions no line beyond the last
+           token, and every diagnostic is well-formed and inside the document — all 51 nonterminals, every semantic action, every
+           recovery mode; t5_sorted_fails: under the weaker hypothesis "sorted by position" the statement is false (zero-width
+           dot token; replayed on the implementation below);
+           lean/GoldModel/Props/C08.lean — outline_ranges_ok (for every tree satisfying the
            checker: all outline symbols start ≤ end, selection ⊆ range), recovery_diag_ok (all
            diagnostics built by the recovering combinators, for every sorted token list),
            param_range_old_fails / param_range_ok (the defect of the pinned parameter action).
@@ -24,20 +30,29 @@ def run(ctx):
         "hand-written parser/outline models tied by correspondence; vlib/ranges.py mirrors Model/Ranges.lean (cross-checked on every case by the `ranges` mode)",
     ]
     ctx.assumptions += [
-        "PARTIAL: that the trees built by the parser actions satisfy the range checker for EVERY token list (T5) is not proved; it is evaluated on every case",
+        "T5 (the trees and diagnostics the parser builds satisfy the range checker for EVERY token list) is proved for the parser MODEL under the guard "
+        "`lexicalB` (every token start <= end, member-access operators non-empty, starts in order, ends before the next start except for string literals and "
+        "comments; checked here on every case that comes from the real lexer, which DOES produce empty ranges ('' and a comment `;` at a line end) and ranges "
+        "reaching over the following tokens (byte length of multi-byte literals)); without the non-empty `.` it is false of model and implementation alike (witness `zeroWidthDot`, replayed); that the line/column "
+        "ranges of the REAL lexer's tokens satisfy the guard for every text is evaluated, not proved",
         "definition links and hierarchy items copy node ranges (SymbolInfo.range / selection_range) of ANOTHER document: checked on the real ProjectManager over generated workspaces (harness modes `scope` and `tree`): start <= end, selection inside range, lines exist in the document the uri names",
         "'lines that exist': for token-level cases the document is taken to have as many lines as the last token's line",
     ]
     if ctx.replay:
         return replay(ctx)
     ctx.prove("GoldModel.Props.C08")
+    ctx.prove("GoldModel.Props.C08T5")
     if not ctx.build_harness():
         return ctx.finish(rule=RULE)
     q = ctx.tier == "quick"
     lines, labels = parsecases.battery(ctx, "C08", exh_len=3 if q else 4, n_prog=6000 if q else 60000, n_soup=3000 if q else 50000,
                                        tower_depth=30, list_len=200, text_len=3 if q else 4, n_text=2000 if q else 30000)
-    lines = [l for l in lines if l.startswith("parse")]
+    keep = [i for i, l in enumerate(lines) if l.startswith("parse")]
+    labels = [labels[i] for i in keep]
+    lines = [lines[i] for i in keep]
     ctx.log("%d cases" % len(lines))
+    guard_tie(ctx, lines, labels)
+    witness_replay(ctx)
     impl = ctx.run_harness("parse", lines, timeout=900)
     model = ctx.run_driver(lines, timeout=900)
     ctx.compare("parse", lines, impl, model, nontrivial=lambda c, a: "(root  0:0-0:0)" not in a or " D= " not in a)
@@ -81,6 +96,67 @@ def run(ctx):
     cross_file(ctx, q)
     ctx.samples = [{"case": lines[i][:300], "ranges": rm[i]} for i in (len(lines) - 1, len(lines) // 2, 7)]
     return ctx.finish(rule=RULE)
+
+
+ZERO_WIDTH_DOT = ("parse Proc:proc:0:0:0:4 Identifier:p:0:5:0:6 Identifier:a:0:7:0:8 Dot:.:0:8:0:8 CBracket:):0:8:0:8 End:end:0:9:0:12")
+
+
+STRICT_KINDS = ("Dot",)    # Gen.opsOf "parse_dot_ops" (E5); cross-checked against the generated table in guard_tie
+LOOSE_KINDS = ("StringLiteral", "Comment")    # Gold.C08.looseKinds: ranges that may reach over the following tokens (byte length of the value)
+
+
+def lexical(line):
+    """the guard of Gold.C08.t5_partial (`lexicalB`) on a case line: every token start <= end (start < end for the member-access
+    operators), starts no later than the next starts and - string literals and comments apart - ends no later than the next starts;
+    no token ends on a line after the one on which the last token ends"""
+    toks = []
+    for w in line.split(" ")[1:]:
+        p = w.split(":")
+        toks.append((p[0], (int(p[2]), int(p[3])), (int(p[4]), int(p[5]))))
+    for i, (k, s, e) in enumerate(toks):
+        if not (s < e if k in STRICT_KINDS else s <= e):
+            return False
+        if i + 1 < len(toks):
+            nxt = toks[i + 1][1]
+            if not s <= nxt or (k not in LOOSE_KINDS and not e <= nxt):
+                return False
+        if e[0] > toks[-1][2][0]:
+            return False
+    return True
+
+
+def guard_tie(ctx, lines, labels):
+    """the hypothesis of T5 holds of everything the real lexer produced (labels `fixture`, `text`), and is not vacuous on the rest"""
+    import os, re
+    gen = open(os.path.join(core.LEAN, "GoldModel", "Gen", "E5_OperatorLadder.lean")).read()
+    m = re.search(r'\("parse_dot_ops", \[(.*?)\]', gen)
+    ctx.oblige("tie:strictKinds == operators of parse_dot_ops (E5)", bool(m) and tuple(k.strip().replace("Kind.", "") for k in m.group(1).split(",")) == STRICT_KINDS,
+               "generated: %s" % (m.group(1) if m else None))
+    n_ok = 0
+    n_empty = 0
+    bad = []
+    for l, lab in zip(lines, labels):
+        if lab in ("fixture", "text"):
+            n_empty += sum(1 for w in l.split(" ")[1:] if w.split(":")[2:4] == w.split(":")[4:6])
+        ok = lexical(l)
+        n_ok += ok
+        if not ok and lab in ("fixture", "text"):
+            bad.append(l)
+    ctx.count("cases satisfying the guard of t5_partial (lexical tokens)", n_ok)
+    ctx.count("empty tokens produced by the real lexer (allowed by the guard)", n_empty)
+    ctx.oblige("tie:hypothesis:tokens of the real lexer satisfy the guard of t5_partial (start <= end, `.` non-empty, starts in order, ends in order except literals/comments)", not bad,
+               "%d cases from the real lexer violate the guard; first: %s" % (len(bad), bad[0][:300] if bad else ""))
+
+
+def witness_replay(ctx):
+    """`t5_sorted_fails`: the witness of the Lean theorem gives the same ill-formed range on the implementation"""
+    impl = ctx.run_harness("parse", [ZERO_WIDTH_DOT])[0]
+    model = ctx.run_driver([ZERO_WIDTH_DOT])[0]
+    t = sexp.field(impl, "T")
+    bad = ranges.ranges_ok(sexp.parse(t)) if t else []
+    ctx.oblige("tie:witness:zeroWidthDot (sorted but empty tokens): implementation == model, dangling-dot node 0:9-0:8 has start after end",
+               impl == model and bool(bad) and "(empty_node empty_node 0:9-0:8)" in impl and not lexical(ZERO_WIDTH_DOT),
+               "implementation: %s | model: %s" % (impl[:300], model[:300]))
 
 
 def cross_file(ctx, q):
